@@ -54,6 +54,8 @@ type c17Opts struct {
 	loader      bool   // templates served by the counting loader instead of RegisterString
 	loadFailAt  int    // fail the j-th loader call
 	loadMissing bool   // ... with a wrapped ErrTemplateNotFound instead of the sentinel
+	emptyBefore bool   // a loader that has no template at all registered before the counting loader
+	emptyAfter  bool   // ... and after it
 	debug       bool
 }
 
@@ -175,7 +177,14 @@ func newC17Engine(c Case, o c17Opts) *c17Engine {
 		}
 	}
 	if o.loader {
+		// further loaders that answer not-found for every name: a failure of one loader stays a failure
+		if o.emptyBefore {
+			ce.eng.RegisterLoader(twig.NewArrayLoader(map[string]string{}))
+		}
 		ce.eng.RegisterLoader(ce)
+		if o.emptyAfter {
+			ce.eng.RegisterLoader(twig.NewArrayLoader(map[string]string{}))
+		}
 	}
 	return ce
 }
@@ -551,9 +560,14 @@ func runC17(cases string, res *Result) {
 				continue // a template nobody has: nothing to fail
 			}
 			for _, to := range []bool{false, true} {
-				variant := fmt.Sprintf("load %d of %d (%s) %s", j, len(loads), tname, c17Variant(to, false, false))
+				// next to the failing loader: none, one before, one after, both (loaders that have nothing)
+				eb, ea := (j+idxOfBool(to))%4 == 1 || (j+idxOfBool(to))%4 == 3, (j+idxOfBool(to))%4 >= 2
+				variant := fmt.Sprintf("load %d of %d (%s) %s empty-loader-before=%v after=%v", j, len(loads), tname, c17Variant(to, false, false), eb, ea)
 				// (a) an I/O failure of the loader
-				ce := newC17Engine(c, c17Opts{loader: true, loadFailAt: j})
+				ce := newC17Engine(c, c17Opts{loader: true, loadFailAt: j, emptyBefore: eb, emptyAfter: ea})
+				if eb || ea {
+					res.Hist["loader-fault-runs-with-further-empty-loaders"]++
+				}
 				r := ce.run(c, to)
 				res.Evaluations++
 				res.Hist["loader-fault-runs"]++
@@ -603,4 +617,11 @@ func runC17(cases string, res *Result) {
 	res.Notes = append(res.Notes,
 		"fault enumeration: every callback invocation of the clean run (cap 40 per case) fails once per variant Render / RenderTo x debug off / on; the sentinel is wrapped for odd k and bare for even k",
 		"loader faults: the same set served by a counting loader, j-th load failing with an I/O error and with a wrapped ErrTemplateNotFound")
+}
+
+func idxOfBool(b bool) int {
+	if b {
+		return 1
+	}
+	return 0
 }
